@@ -24,6 +24,7 @@ class ProofItem:
     bounded_only: bool = False  # function outside the engine's subset: contract checked on the bounded rung only
     why_bounded: str = ""
     thorough_only: bool = False  # the proof takes long: obligations are discharged in the thorough tier only
+    registry: Callable | None = None  # the callee contracts of this function, when they differ from the property's registry
 
 
 @dataclass
@@ -96,7 +97,7 @@ def _proof_worker(arg):
     mod = importlib.import_module(prop_mod)
     items = mod.proof_items()
     it: ProofItem = items[idx]
-    reg = mod.registry()
+    reg = it.registry() if it.registry else mod.registry()
     out = {"function": it.contract.name, "qualname": it.contract.qualname}
     try:
         skip_proof = it.bounded_only or (it.thorough_only and tier == "quick")
@@ -348,7 +349,14 @@ def run_property(pid: str, tier: str) -> int:
     wall = round(time.time() - t0, 2)
     level = mod.LEVEL
     trusted = list(getattr(mod, "TRUSTED_BASE", []))
-    assumed = [{"contract": c.qualname, "note": c.note} for c in mod.registry().values() if c.trusted]
+    regs = [mod.registry()] + [it.registry() for it in mod.proof_items() if it.registry]
+    seen_q: set = set()
+    assumed = []
+    for rg in regs:
+        for c in rg.values():
+            if c.trusted and (c.qualname, c.note) not in seen_q:
+                seen_q.add((c.qualname, c.note))
+                assumed.append({"contract": c.qualname, "note": c.note})
     ev = {
         "property_id": pid, "tier": tier, "seed": sd, "level": level, "wall_s": wall,
         "violations": len(reported),
